@@ -15,10 +15,10 @@ import (
 
 const verifBaseDoc = `{"openapi":"3.0.0","info":{"title":"t","version":"1","license":{"name":"MIT"}},"servers":[{"url":"https://{h}/v1","variables":{"h":{"default":"a"}}}],` +
 	`"tags":[{"name":"x","externalDocs":{"url":"https://e"}}],"security":[{"sec":[]}],` +
-	`"paths":{"/a/{id}":{"servers":[{"url":"/p"}],"parameters":[{"$ref":"#/components/parameters/Id"}],"get":{"operationId":"get","tags":["x"],"servers":[{"url":"/o"}],"externalDocs":{"url":"https://e"},"parameters":[{"name":"q","in":"query","schema":{"type":"array","items":{"type":"integer"}},"examples":{"e":{"value":[1]}}},{"name":"c","in":"query","content":{"application/json":{"schema":{"type":"object"}}}}],` +
+	`"paths":{"/a/{id}":{"servers":[{"url":"/p"}],"parameters":[{"$ref":"#/components/parameters/Id"}],"get":{"operationId":"get","tags":["x"],"servers":[{"url":"/o"}],"externalDocs":{"url":"https://e"},"parameters":[{"name":"q","in":"query","schema":{"type":"array","items":{"type":"integer"}},"examples":{"e":{"value":[1]}}},{"name":"c","in":"query","content":{"application/json":{"schema":{"type":"object"}}}},{"name":"q","in":"header","schema":{"type":"string"}}],` +
 	`"requestBody":{"$ref":"#/components/requestBodies/B"},"responses":{"200":{"$ref":"#/components/responses/R"},"default":{"description":"d","headers":{"X-H":{"$ref":"#/components/headers/H"}},"content":{"application/json":{"schema":{"$ref":"#/components/schemas/S"},"example":{"a":1}}},"links":{"l":{"$ref":"#/components/links/L"}}}},` +
 	`"callbacks":{"cb":{"$ref":"#/components/callbacks/C"}},"security":[{}]}}},` +
-	`"components":{"schemas":{"S":{"type":"object","required":["a"],"properties":{"a":{"type":"integer","format":"int32","minimum":0},"n":{"$ref":"#/components/schemas/S"},"l":{"type":"array","items":{"$ref":"#/components/schemas/T"}}},"additionalProperties":false,"discriminator":{"propertyName":"a"}},"T":{"oneOf":[{"type":"string","pattern":"^a"},{"type":"number","multipleOf":2}],"default":"a","nullable":true}},` +
+	`"components":{"schemas":{"S":{"type":"object","required":["a"],"properties":{"a":{"type":"integer","format":"int32","minimum":0},"n":{"$ref":"#/components/schemas/S"},"l":{"type":"array","items":{"$ref":"#/components/schemas/T"}},"k":{"anyOf":[{"type":"string","maxLength":3},{"type":"integer"}]},"f":{"allOf":[{"type":"string"}],"not":{"type":"integer"}}},"additionalProperties":false,"discriminator":{"propertyName":"a"}},"T":{"oneOf":[{"type":"string","pattern":"^a"},{"type":"number","multipleOf":2}],"default":"a","nullable":true}},` +
 	`"parameters":{"Id":{"name":"id","in":"path","required":true,"schema":{"type":"string"}}},"headers":{"H":{"schema":{"type":"integer"}},"HC":{"content":{"application/json":{"schema":{"type":"integer"}}}}},"requestBodies":{"B":{"required":true,"content":{"application/json":{"schema":{"$ref":"#/components/schemas/S"},"examples":{"ex":{"value":{"a":1}}}},"multipart/form-data":{"schema":{"type":"object","properties":{"f":{"type":"string"}}},"encoding":{"f":{"contentType":"text/plain","style":"form","explode":true,"headers":{"X-E":{"schema":{"type":"string"}}}}}}}}},` +
 	`"responses":{"R":{"description":"d"}},"examples":{"E":{"value":[1]}},"links":{"L":{"operationId":"get","parameters":{"id":"$response.body#/a"}}},"callbacks":{"C":{"{$request.body#/u}":{"post":{"responses":{"200":{"description":"d"}}}}}},` +
 	`"securitySchemes":{"sec":{"type":"oauth2","flows":{"implicit":{"authorizationUrl":"https://a","scopes":{}}}}}}}`
